@@ -1,3 +1,21 @@
+// verification hooks: re-export of module-private items (add-only, feature `verif`)
+#[cfg(feature = "verif")]
+#[allow(unused_imports)]
+pub mod verif_export {
+    pub mod shared_sender {
+        pub use super::super::shared_sender::*;
+    }
+    pub mod task {
+        pub use super::super::task::*;
+    }
+    pub mod disk_read_scheduler {
+        pub use super::super::disk_read_scheduler::*;
+    }
+    pub mod inner_locustdb {
+        pub use super::super::inner_locustdb::*;
+    }
+}
+
 mod shared_sender;
 mod task;
 pub(crate) mod disk_read_scheduler;
